@@ -79,7 +79,7 @@ func c03Bound(wk clWalk, zeroForOne, exactIn bool, spread *big.Rat) *big.Rat {
 
 func runC03(c *vk.Ctx) {
 	c.R.Rule = "cases = the common concentrated-liquidity histories with a swap-heavy mix (see C07). For EVERY swap message: the estimate queries (pool-manager EstimateSwapExactAmountIn/Out and the CL Calc*) are evaluated on the same state and the digest of the CL and bank stores is compared before/after; an exact big.Rat walker over the pool/all-ticks queries yields the ideal amount; an executed swap must equal the estimate, must not beat the ideal (exact inequality) and must be within the per-witness rounding bound of it; a there-and-back pair is run on a discarded branch. A second part checks the exported per-bucket swap functions at ulp level. distinct_nontrivial counts distinct (direction, exact-in/out, #ticks crossed bucket, landed-on-tick?, spread factor, hit-gap?, outcome) tuples among swaps plus (function, direction, reached-target?) cells."
-	nHist := c.N(240, 1600)
+	nHist := c.N(1440, 2400)
 	opsPer := c.N(40, 150)
 	hooks := clHooks{}
 	hooks.beforeSwap = func(w *clWorld, zfo, exactIn bool, amount sdkmath.Int) func(clSwapRec) {
